@@ -52,3 +52,41 @@ Proof.
     symmetry. eapply (run_crates_order_free gid_eqb gid_eqb_spec); [|exact E0 | exact HG].
     apply Permutation_map. exact HP.
 Qed.
+
+(* C20_ok holds of the model: for a description that passes [fixture_ok], the model's registry for
+   every renumbered and reordered version satisfies the trace predicate, strictly (closed) whenever an
+   Effect type is defined, i.e. outside the class request_without_effect. *)
+Lemma registry_eqb_refl r : registry_eqb r r = true.
+Proof.
+  assert (Hf : forall f, fmt_eqb f f = true).
+  { induction f using fmt_ind'; cbn [fmt_eqb].
+    - apply String.eqb_refl.
+    - destruct p; reflexivity.
+    - exact IHf.
+    - exact IHf.
+    - rewrite IHf1, IHf2. reflexivity.
+    - induction H as [|x l Hx Hl IH]; [reflexivity|]. rewrite Hx, IH. reflexivity.
+    - rewrite IHf, N.eqb_refl. reflexivity.
+    - reflexivity. }
+  assert (Hl : forall A (e : A -> A -> bool), (forall a, e a a = true) -> forall l, list_eqb e l l = true).
+  { intros A e He l. induction l as [|a l IH]; cbn; [reflexivity|]. rewrite He, IH. reflexivity. }
+  assert (Hn : forall A (e : A -> A -> bool), (forall a, e a a = true) -> forall p, named_eqb e p p = true).
+  { intros A e He [n a]. unfold named_eqb. cbn. rewrite String.eqb_refl, He. reflexivity. }
+  assert (Hv : forall v, vfmt_eqb v v = true).
+  { destruct v; cbn [vfmt_eqb]; [reflexivity | apply Hf | apply Hl; exact Hf | apply Hl; apply Hn; exact Hf]. }
+  assert (Hc : forall c, container_eqb c c = true).
+  { destruct c; cbn [container_eqb]; [reflexivity | apply Hf | apply Hl; exact Hf | apply Hl; apply Hn; exact Hf |].
+    apply Hl. intros [i p]. cbn [fst snd]. rewrite N.eqb_refl. apply Hn. exact Hv. }
+  unfold registry_eqb. apply Hl. apply Hn. exact Hc.
+Qed.
+
+Theorem ok_of_model d es reg crates : fixture_ok d es reg crates = true ->
+  forall rho es', (forall c a b, rho c a = rho c b -> a = b) -> Permutation (rename_edges rho es) es' ->
+  C20_ok reg (format es') = true
+  /\ (known_request_without_effect (format es') = false -> definesb es "Effect" = true ->
+      C20_ok_strict reg (format es') = true).
+Proof.
+  intros H rho es' Hinj HP. destruct (fixture_ok_sound _ _ _ _ H) as [Hf [Hc [Hce [Hk [Hp _]]]]].
+  rewrite (Hp rho es' Hinj HP). unfold C20_ok_strict, C20_ok. rewrite registry_eqb_refl, Hc, Hk. split; [reflexivity|].
+  intros _ He. rewrite (Hce He). reflexivity.
+Qed.
